@@ -77,9 +77,16 @@ class SymList:
         self.arr = z3.Store(self.arr, self.n, v.e)
         self.n = self.n + 1
 
+    def m_pop(self, cx, lineno):
+        cx.oblige(f'no-raise.IndexError(pop from empty list)@L{lineno}', self.n > 0, 'no-raise', lineno)
+        self.n = self.n - 1
+        return self.elem(self.n)
+
     def __pyvc_getattr__(self, engine, name, cx, lineno):
         if name == 'append':
             return I.ExternFunc('SymList.append', self.m_append)
+        if name == 'pop':
+            return I.ExternFunc('SymList.pop', lambda: self.m_pop(cx, lineno))
         raise Unsupported(f'SymList.{name}')
 
     def __pyvc_len__(self):
